@@ -12,11 +12,13 @@ import (
 	"os"
 	"os/exec"
 	"path/filepath"
+	"strconv"
 	"strings"
 	"sync/atomic"
 	"time"
 
 	"verif/engine/gossa"
+	"verif/engine/llsym"
 )
 
 var scratchRoot string
@@ -255,6 +257,41 @@ func replayFile(path string) int {
 	if err != nil {
 		fmt.Fprintln(os.Stderr, err)
 		return 2
+	}
+	if strings.HasPrefix(string(b), "# property=") {
+		// llsym counterexample: header line, then the values file of the native runtime
+		lines := strings.Split(string(b), "\n")
+		hdr := map[string]string{}
+		for _, f := range strings.Fields(lines[0][2:]) {
+			if i := strings.Index(f, "="); i > 0 {
+				hdr[f[:i]] = strings.Trim(f[i+1:], `"`)
+			}
+		}
+		label := ""
+		if i := strings.Index(lines[0], "label="); i >= 0 {
+			label = strings.Trim(lines[0][i+6:], `"`)
+		}
+		params := map[string]int{}
+		var model []llsym.NondetVal
+		for _, ln := range lines[1:] {
+			f := strings.Fields(ln)
+			if len(f) == 3 && f[0] == "p" {
+				v, _ := strconv.Atoi(f[2])
+				params[f[1]] = v
+			} else if len(f) == 4 && f[0] == "v" {
+				w, _ := strconv.Atoi(f[2])
+				v, _ := strconv.ParseUint(f[3], 10, 64)
+				model = append(model, llsym.NondetVal{Name: f[1], W: w, Val: v})
+			}
+		}
+		out, _ := llReplay(hdr["file"], hdr["func"], params, model, 60*time.Second)
+		fmt.Print(out)
+		if strings.Contains(out, "VERIF-CHECK-FAILED") || strings.Contains(out, "Sanitizer") || strings.Contains(out, "runtime error:") || strings.Contains(out, "VERIF-WATCHDOG") {
+			fmt.Printf("VIOLATION property=%s replay=%s (%s)\n", hdr["property"], path, label)
+			return 1
+		}
+		fmt.Println("replay did not reproduce the failure")
+		return 0
 	}
 	var generic struct {
 		Property string `json:"property"`
